@@ -17,7 +17,7 @@ def add(pid, category, text, ref, note, technique):
 add('C17', 'exploration',
     'Complete product of all 256 exponents x 27 boundary mantissas (x 9 hash positions x 4 chains for the proof-of-work '
     'decision), every bit length 0..256 for encoding; thorough adds all 2^24 mantissas for 11 exponents. Each case is '
-    'executed on the real functions and compared with a byte-string formulation of Core\'s Set/GetCompact.',
+    'executed on the real functions and compared with a byte-string formulation of Core\'s Set/GetCompact. Plus every history of <=5 (6) events over {select one of 4 chains, CheckProofOfWork(6 probes)}: each verdict equals the reference verdict for the chain selected at that moment.',
     'DESIGN.md 3 C17', 'Oracle ref/compact.py (validated against the arith_uint256 literal vectors); mantissas between the '
     'boundary values are only covered by the thorough tier.',
     'bounded exhaustive enumeration (complete product) against a reference model')
@@ -27,7 +27,7 @@ add('C01', 'exploration',
     'shape with 1..3 and 253 inputs, 0..3 and 253 outputs, witness stack patterns, both classes; headers; blocks of 0..3 and 253 '
     'transactions; CompactSize at the integer level. Every case: byte-exact comparison with an independent wire encoder, round '
     'trip through both classes, every truncation point (all prefixes of short encodings, every field boundary +-1 of long ones) '
-    'and a catalogue of extensions with the exact exception class, carried object and padding.',
+    'and a catalogue of extensions with the exact exception class, carried object and padding. Mutable objects are serialised, edited in place and serialised again; scripts / witness items of MAX_SIZE-1 and MAX_SIZE bytes round-trip.',
     'DESIGN.md 3 C01', 'Oracle ref/wire.py (validated on repository literal transactions and by decode(encode) redundancy). '
     'Inside one field body of a long encoding the parser outcome is assumed uniform (it reads field by field).',
     'bounded exhaustive enumeration (deviation-bounded product + exhaustive truncation/extension fault enumeration) against a reference model')
@@ -36,7 +36,7 @@ add('C02', 'exploration',
     'Every base transaction (12 shapes x k<=1/2 field deviations) x every witness assignment (all 5^n stack patterns, absent, '
     'empty object) in both classes: txid/wtxid against sha256d of the reference encodings, equality/hash of twins, txid '
     'invariance under witness replacement, no stale identifiers after field edits, immutable snapshots; sub-object twins; '
-    'block hash = sha256d(80-byte header) for constructed and deserialised blocks (arbitrary merkle field) of 0..3 transactions.',
+    'block hash = sha256d(80-byte header) for constructed and deserialised blocks (arbitrary merkle field) of 0..3 transactions. Also: identifiers of immutable copies after in-place edits of the original, block == header / other-body comparisons after hashing, and objects deserialised from accepted non-canonical encodings.',
     'DESIGN.md 3 C02', 'Oracle ref/wire.py + hashlib.', 'bounded exhaustive enumeration (complete product of shapes x witness patterns) against a reference model')
 
 add('C03', 'exploration',
@@ -50,7 +50,7 @@ add('C03', 'exploration',
 add('C04', 'exploration',
     'Deviation-bounded product (k<=2 quick / k<=3 thorough) over transaction fields at the uint32/int32/int64 boundaries, amount, '
     'script-code length across every CompactSize boundary, every valid index, both classes; all 256 hash types for k<=1, 12 '
-    'representative (incl. undefined) types for k>=2; digest compared with the BIP143 preimage assembled by the reference.',
+    'representative (incl. undefined) types for k>=2; digest compared with the BIP143 preimage assembled by the reference. Script codes include witness-program / P2PKH / P2SH shapes; mutable transactions are hashed, edited in place and hashed again.',
     'DESIGN.md 3 C04', 'Oracle ref/sighash.py validated on the BIP143 example vectors shipped in the repository tests.',
     'bounded exhaustive enumeration (deviation-bounded product) against a reference model')
 
@@ -59,7 +59,7 @@ add('C08', 'exploration',
     'of length <=2 (quick) / <=3 (thorough); builder on all token sequences of length <=2 (<=3) over 177 opcodes, 45 integers, '
     '34 byte strings (incl. 64 KiB) with list()/rebuild round trip; raw iteration, cooked iteration, nine predicates and both '
     'sig-op counts on every byte string of length <=2 (<=3), a 48-byte alphabet at length 3 (4), a push-boundary family and a '
-    'length-structured family for the witness/P2SH predicates.',
+    'length-structured family for the witness/P2SH predicates. Byte strings are also given as bytearray, scripts are also built from generators that construct other scripts while being consumed, and every predicate / sig-op count is called repeatedly and in both orders on one object.',
     'DESIGN.md 3 C08', 'Oracle ref/script.py (tokenizer is prefix-consistent by self-test; codec validated on literal vectors).',
     'bounded exhaustive enumeration (all short byte strings / token sequences) against a reference model')
 
@@ -68,7 +68,7 @@ add('C10', 'fault_enumeration',
     'alphabet string of length <=3 (<=4) through decode/encode; strings with characters outside the alphabet at every position; '
     'every version 0..255 x payload length 0..40,64,255 through Base58Check; every single substitution, deletion, insertion and '
     'truncation of 20 valid Base58Check strings (and every double substitution of one in thorough) judged by the reference '
-    'checksum rule; every decoding shorter than 5 bytes.',
+    'checksum rule; every decoding shorter than 5 bytes. Plus all strings of length 4..11 over {1,2,z} (zero-digit runs), 17 non-ASCII confusable characters at every position, and same-payload objects with different versions.',
     'DESIGN.md 3 C10', 'Oracle ref/base58.py (big-integer definition; bijection self-test).',
     'exhaustive single-fault enumeration + exhaustive short-input enumeration against a reference model')
 
@@ -77,7 +77,7 @@ add('C11', 'fault_enumeration',
     'programs; all strings with a valid checksum over every version symbol x payload length 0..66 x every last symbol (padding, '
     'length, version rules on both sides); every single substitution/deletion/insertion/truncation/case flip of 6 addresses; '
     'every double substitution in the data part (2 addresses quick, 6 thorough); every triple (and quadruple in thorough) '
-    'position set over 3 alternatives; every burst of 3 (4) adjacent symbols over all alternatives.',
+    'position set over 3 alternatives; every burst of 3 (4) adjacent symbols over all alternatives. Plus checksum-valid addresses under look-alike prefixes (prefix confusion) and 17 non-ASCII confusable characters substituted at every position in lower- and upper-case renderings.',
     'DESIGN.md 3 C11', 'Oracle ref/bech32.py: checksum as a polynomial remainder over GF(32) (independent of the library\'s polymod), '
     'validated on the BIP173 vectors; for multi-substitution families the linear syndrome decides checksum validity.',
     'exhaustive single/double fault enumeration (plus bounded multi-fault families) against a reference model')
@@ -87,7 +87,7 @@ add('C15', 'exploration',
     'pattern (2^n) and every duplicate pattern (all set partitions of positions, with and without witnesses): whole merkle tree, '
     'root, witness root (coinbase zeroed, NoWitnessData iff no stack non-empty), zero-root fill-in, constructed and deserialised; '
     'every single-byte and single-bit change of the correct root refused; tx weight on the C01 shapes (k<=1/2) and block weight '
-    'incl. 252/253/254 transactions.',
+    'incl. 252/253/254 transactions. Plus weight after in-place edits of a mutable transaction, coinbase-shaped transactions in later positions, and the caller\'s txid list left untouched by tree building (second call, tuple).',
     'DESIGN.md 3 C15', 'Oracle ref/wire.py merkle_root/merkle_tree (validated on mainnet block 100000) and reference sizes.',
     'bounded exhaustive enumeration (all counts, all partitions up to n) against a reference model')
 
@@ -97,7 +97,7 @@ add('C20', 'model_checking',
     'dedup on (vData, nHashFuncs, nTweak, nFlags) = the whole object state; in every state the set bits equal the union of the '
     'BIP37 schedule bits, every inserted element is contained, every membership answer equals the schedule-defined one and '
     'survives the wire round trip. Plus MurmurHash3 (lengths 0..17 x fills x seeds), constructor sizing/caps over a parameter '
-    'grid, constructed filters, and wire filters with empty data.',
+    'grid, constructed filters, and wire filters with empty data. Configurations include zero hash functions.',
     'DESIGN.md 3 C20', 'Oracle ref/bloom.py (MurmurHash3 validated on the repository\'s vectors). State dedup is sound: a filter has no other state.',
     'explicit-state breadth-first search over the real transition function with history replay, reference-model agreement in every state')
 
@@ -107,7 +107,7 @@ add('C13', 'exploration',
     'r with 31 bytes, r>=2^255, high S before normalisation, 31-byte s) + unowned draws for signing (strict DER, low S, reference '
     'verification equation, byte-equality with the deterministic result); low-S normalisation grid; verification table over 12 '
     'signature classes x compressed/uncompressed/hybrid keys; public-key validity grid over every prefix byte x {33,65} bytes x '
-    'coordinate classes.',
+    'coordinate classes. Plus key-object histories: three public-key objects alive in every order, set_compressed/get_pubkey sequences on one CECKey, WIF across chain switches.',
     'DESIGN.md 3 C13', 'Oracle ref/secp256k1.py (group-law self-tests, cross-checked against OpenSSL on oracle-made signatures). The ECDSA nonce is '
     'owned by proxying bitcoin.core.key._ssl (ECDSA_sign -> ECDSA_sign_ex); OpenSSL arithmetic itself is trusted.',
     'bounded exhaustive enumeration (complete products, nonce as enumerated environment answer) against a reference model')
@@ -117,7 +117,7 @@ add('C14', 'exploration',
     'UTF-8) x 5 owned nonces + 1 unowned draw (x 4 chains for k=1): 65-byte signature, header byte, reference public-key recovery '
     '= signer key, deterministic (r, low s), digest = sha256d(varstr(magic)||varstr(utf-8)), VerifyMessage true for the own P2PKH '
     'address in three forms and false for the other compression, P2SH of the same hash, two other keys and 7 message '
-    'perturbations; recover_compact against the reference for every header byte 27..34 incl. recovery ids 2/3.',
+    'perturbations; recover_compact against the reference for every header byte 27..34 incl. recovery ids 2/3. Plus 8 magic strings (default, empty, non-ASCII, 253 bytes) with cross-verification.',
     'DESIGN.md 3 C14', 'Oracle ref/secp256k1.py + ref/base58.py + hashlib; nonce owned as in C13.',
     'bounded exhaustive enumeration (complete product with full negative table) against a reference model')
 
@@ -144,7 +144,7 @@ add('C07', 'fault_enumeration',
     'failing operations (captured error state within limits); every prefix and every single-byte substitution of a valid '
     'signature, every prefix byte / truncation / substitution of 33- and 65-byte keys in CHECKSIG and CHECKMULTISIG; immutable '
     'and mutable transactions with 1..3 inputs and indices 0..len(vin)+1. After every case every transaction handed in is compared '
-    'with its baseline snapshot (serialisation, fields, object identities).',
+    'with its baseline snapshot (serialisation, fields, object identities). Plus CHECKMULTISIG(VERIFY) with every kind of key-/signature-count operand after 0/180/200 counted operations (captured nOpCount within limits).',
     'DESIGN.md 3 C07', 'No reference semantics needed. A dying worker (OpenSSL via ctypes) is attributed through the published current case.',
     'exhaustive fault enumeration (all short inputs, all single truncations/substitutions) with a containment oracle')
 
@@ -156,7 +156,7 @@ add('C05', 'fault_enumeration',
     'version, lock time, witness; insert/remove/duplicate/swap of inputs and outputs at every position) and every signature '
     'substitution (foreign key, flipped hash-type byte, permuted order, duplicated signature, substituted redeem script). Oracle: '
     'verifies iff the reference signature hash of the edited transaction equals the signed digest; a hand-written commitment '
-    'table must agree with that oracle (self-test and at run time).',
+    'table must agree with that oracle (self-test and at run time). Plus verification histories (a genuine spend first, then an output locked to each kind of malformed public key, in P2PK / P2PKH / multisig placements) and VerifySignature with witness-carrying funding transactions.',
     'DESIGN.md 3 C05', 'Oracle ref/sighash.py + ref/secp256k1.py; nonce owned (props/eckeys.py); digest collisions ignored.',
     'exhaustive single-edit fault enumeration over sign-edit-verify histories against a reference model')
 
@@ -167,7 +167,7 @@ add('C09', 'model_checking',
     'hashes + VerifyScript) on any object; depth 3 (4). Every node is rebuilt by replaying its history on fresh objects; in every '
     'state every live object\'s serialisation, identifiers, hash() and == equal the reference model (plain dicts, deep-copied at copy '
     'events) and every slot of every immutable object (and its sub-objects) rejects setattr/delattr. Dedup key = models + alias graph '
-    'of real sub-objects + cache-population flags. Plus the complete family copy . compute . edit . copy . compute . use . edit.',
+    'of real sub-objects + cache-population flags. Plus the complete family copy . compute . edit . copy . compute . use . edit. Plus default-constructed objects (editing one never changes another) and attempts to plant or delete the identifier caches of immutables.',
     'DESIGN.md 3 C09', 'Reference model ref/wire.py on nested dicts. Key soundness: models, aliasing and cache presence are everything the library reads.',
     'explicit-state breadth-first search over operation histories with history replay on fresh real objects and a reference model')
 
@@ -192,7 +192,7 @@ add('C16', 'fault_enumeration',
     'proof of work is live): every transaction entry applied to every transaction incl. the coinbase, second/missing/misplaced '
     'coinbase, duplicate transaction (and same txid with other witness), sig-ops 19,999/20,000/20,001 in three distributions incl. '
     'malformed trailing pushes, wrong/zero merkle root, 14 witness-commitment modes, timestamp +7200/+7201, bad hash, bits above '
-    'limit/zero/negative, other chains; all pairs on the 3-transaction witness block; block size and weight at +-1 of the limits.',
+    'limit/zero/negative, other chains; all pairs on the 3-transaction witness block; block size and weight at +-1 of the limits. Plus every history of <=4 (5) events over {select chain, CheckBlock(2 blocks), CheckBlockHeader(2 difficulty levels)} judged by the rules of the chain selected at that moment.',
     'DESIGN.md 3 C16', 'Oracle ref/rules.py (agrees with the repository\'s checkblock_valid/invalid vectors). Commitment outputs > 39 bytes are don\'t-care.',
     'exhaustive single and pairwise rule-violation (fault) enumeration against a reference rule list')
 
@@ -204,7 +204,7 @@ add('C18', 'fault_enumeration',
     '8,420 streams of <=3 frames from a pool of 20 (position after every message). Every pool frame: every truncation point, every '
     'byte x 4 corruptions judged by region (magic/checksum/payload must be rejected, command judged by what it names, length by '
     'the slice), a 9-value length-field catalogue with recomputed checksum and a sentinel frame (nothing read beyond the header for '
-    'lengths > MAX_SIZE), foreign-chain magic.',
+    'lengths > MAX_SIZE), foreign-chain magic. Plus every history of <=4 (5) events over {select chain, frame 4 types, parse own-chain frames, parse a foreign-chain frame} and headers lists holding CBlock objects.',
     'DESIGN.md 3 C18', 'Oracle ref/p2p.py (payload layouts from the protocol documentation; literal verack/ping frames).',
     'exhaustive single-fault enumeration on frames plus bounded exhaustive enumeration of messages and frame streams against a reference model')
 
